@@ -36,6 +36,9 @@ type Case struct {
 	// OutBacklog: bytes the engine side writes to every stream connection before the inbound traffic
 	// starts; the peers do not read them, so a write backlog is pending while data comes in
 	OutBacklog int `json:"out_backlog,omitempty"`
+	// ReadScript (syscall-shim build only): outcome of the connection's read system calls, cyclic:
+	// 0 pass, 2 EINTR, 3 EAGAIN although data is there (never in plain ET)
+	ReadScript []int `json:"read_script,omitempty"`
 }
 
 const window = 4 * time.Second
@@ -173,6 +176,9 @@ func runCase(c Case) vlib.Result {
 	defer vlib.StopEngine(g.Stop, 10*time.Second)
 	var peers []net.Conn
 	var sts []*connState
+	fds := map[int]bool{}
+	var injected [4]int64
+	var nbcs []*nbio.Conn
 	for i := range c.Conns {
 		sndbuf := 0
 		if c.OutBacklog > 0 {
@@ -191,6 +197,17 @@ func runCase(c Case) vlib.Result {
 		mu.Lock()
 		states[nbc] = st
 		mu.Unlock()
+		if rc, e := nbc.SyscallConn(); e == nil {
+			_ = rc.Control(func(f uintptr) { fds[int(f)] = true })
+		}
+		nbcs = append(nbcs, nbc)
+		peers = append(peers, peer)
+		sts = append(sts, st)
+	}
+	if len(c.ReadScript) > 0 && shimAvailable {
+		defer installReadScript(fds, c.ReadScript, &injected)()
+	}
+	for _, nbc := range nbcs {
 		if _, err := g.AddConn(nbc); err != nil {
 			return vlib.Fail("harness: AddConn: %v", err)
 		}
@@ -199,8 +216,6 @@ func runCase(c Case) vlib.Result {
 				return vlib.Fail("harness: backlog write returned (%d, %v)", n, err)
 			}
 		}
-		peers = append(peers, peer)
-		sts = append(sts, st)
 	}
 	var total int64
 	var wg sync.WaitGroup
@@ -259,6 +274,14 @@ func runCase(c Case) vlib.Result {
 		return res
 	}
 	if c.OutBacklog > 0 {
+		res.NonTrivial = true
+	}
+	if injected[2] > 0 {
+		res.Classes = append(res.Classes, "injected-read=EINTR")
+		res.NonTrivial = true
+	}
+	if injected[3] > 0 {
+		res.Classes = append(res.Classes, "injected-read=EAGAIN")
 		res.NonTrivial = true
 	}
 	nonDefault := c.Mode != vlib.ModeLT || c.Async || c.Exec != "default" || c.ReadBuf != 65536 || c.MaxReads != 3
@@ -531,6 +554,17 @@ func gen(t *rapid.T) Case {
 			bursts = append(bursts, Burst{Size: size, GapUs: rapid.SampledFrom([]int{0, 0, 20, 200, 1000, 5000}).Draw(t, "gapus")})
 		}
 		c.Conns = append(c.Conns, bursts)
+	}
+	if shimAvailable && rapid.Bool().Draw(t, "readscript") {
+		kinds := []int{0, 0, 2, 3}
+		if c.Mode == vlib.ModeET {
+			kinds = []int{0, 0, 2}
+		}
+		n := rapid.IntRange(1, 8).Draw(t, "nreadscript")
+		for i := 0; i < n; i++ {
+			c.ReadScript = append(c.ReadScript, rapid.SampledFrom(kinds).Draw(t, "readkind"))
+		}
+		c.ReadScript = append(c.ReadScript, 0)
 	}
 	if rapid.IntRange(0, 2).Draw(t, "outbacklog") == 0 {
 		c.OutBacklog = rapid.SampledFrom([]int{100000, 1 << 20, 4 << 20}).Draw(t, "outbacklogsize")
